@@ -285,6 +285,7 @@ func TestVerifC32(t *testing.T) {
 		if r.Chance(20) {
 			nc = 0
 		}
+		var prevTombs []vfC32Entry
 		for c := 0; c < nc; c++ {
 			var es []vfC32Entry
 			seen := map[uint32]bool{}
@@ -296,6 +297,23 @@ func TestVerifC32(t *testing.T) {
 				}
 				seen[id] = true
 				es = append(es, vfC32Entry{id: id, name: vfC32Name(id, r.Chance(8)), tomb: r.Chance(35), date: dates[r.Intn(len(dates))]})
+			}
+			// the same repository tombstoned in several compound shards, often with equal commit dates
+			// (getTombstonedRepos' tie-break)
+			for _, pe := range prevTombs {
+				if !seen[pe.id] && r.Chance(45) {
+					seen[pe.id] = true
+					dup := pe
+					if r.Chance(30) {
+						dup.date = dates[r.Intn(len(dates))]
+					}
+					es = append(es, dup)
+				}
+			}
+			for _, e := range es {
+				if e.tomb {
+					prevTombs = append(prevTombs, e)
+				}
 			}
 			p := filepath.Join(dir, fmt.Sprintf("compound-c%d_v17.00000.zoekt", c))
 			vfC32WriteCompound(t, scratch, p, es)
